@@ -34,6 +34,8 @@ def gen(tier, seed):
                 else:
                     T = dict(k=kind, t=list(rnd.choice(TT)), r=[])
                 c['T'] = T
+                if rnd.random() < 0.25:
+                    c = GC.far_vertex(c, rnd)          # a badly initialised point: steps of several thousand units
                 cases.append(c)
     return [c for c in cases if GC.components_fixed(c)]
 
